@@ -139,6 +139,8 @@ def gen_spec(rng, scale_kind=None, n=None, direction=None, c08=False, text_class
             d["text"] = t
         data.append(d)
     axis_len = rng.choice([300, 460, 760, 1000])
+    if rng.random() < 0.04:
+        axis_len = rng.choice([20000, 70000, 1200000])  # a very long axis: coordinates of 5-7 digits in both back-ends
     other = rng.choice([200, 400, 600])
     m = {"left": rng.choice([0, 20, 33]), "right": rng.choice([0, 20]), "top": rng.choice([0, 20, 7]), "bottom": rng.choice([20, 5])}
     if direction in ("up", "down"):
